@@ -48,4 +48,26 @@ def whole_content_hashed(ctx, rule):
             in_loop = ub in b.reachable(b.succ(ub)) and all(rb in b.reachable(b.succ(rb)) for rb, _ in plain)
             ctx.ob(rule, 'hash-covers-what-was-read|%s' % fn, bounded and in_loop, b.loc(ub, ut),
                    'the hasher is fed `&buffer[..n]` where n is what read() returned (%s), inside the read loop (%s)' % (bounded, in_loop))
-    ctx.floor(rule, 'hashing functions in persist_if_changed', n, 1)
+    # whatever the comparison is made of (digests or direct block comparison): no API that silently leaves a tail out
+    #   chunks_exact / array_chunks / as_chunks drop the last partial chunk unless `remainder()` is looked at;
+    #   read_exact loses the bytes of a short final read
+    TAIL_DROPPERS = {'chunks_exact', 'rchunks_exact', 'array_chunks', 'as_chunks', 'chunks_exact_mut'}
+    m = 0
+    for b in ctx.fb.bodies(PIC):
+        if b.is_promoted:
+            continue
+        fn = b.nid.replace(PIC + '::', '')
+        rem = any((callee(t) or '').split('::')[-1] in ('remainder', 'into_remainder') for _, t in b.calls())
+        for bb, t in b.calls():
+            mname = (callee(t) or '').split('::')[-1]
+            if mname in TAIL_DROPPERS:
+                m += 1
+                ctx.ob(rule, 'compares-everything|%s|%s' % (fn, mname), rem, b.loc(bb, t),
+                       '%s iterates whole chunks only; the last `len %% chunk` bytes are %s' % (mname, 'looked at through remainder()' if rem else
+                                                                                               'never compared: two contents that differ only there compare equal'))
+            if mname == 'read_exact' and not [1 for _, t2 in b.calls() if callee(t2) in UPDATE]:
+                m += 1
+                ctx.ob(rule, 'compares-everything|%s|read_exact' % fn, False, b.loc(bb, t),
+                       'blocks are filled with read_exact: a final block shorter than the buffer is an error / is lost, so the tail of the file is not compared')
+    ctx.count('tail_dropping_apis_in_persist_if_changed', m)
+    ctx.floor(rule, 'hashing functions in persist_if_changed', n, 0 if m else 1)
